@@ -147,8 +147,20 @@ Fixpoint fbl (all : list tok) (prev : option kind) (l : list tok) : list tok :=
       else if okind_is prev KCr && kind_eqb (tk t) KWs && okind_is next KCr then mk KBlank [] :: fbl all (Some (tk t)) r
       else t :: fbl all (Some (tk t)) r
   end.
+(* utils.remove_blank_line_tokens_from_lines_with_content (first pass of fix_blank_lines): a blank_line object
+   that is not alone on its line is dropped. [prev_cr]: the previous object *of the input* is a carriage return
+   (true at index 0); past the end counts as a carriage return. *)
+Fixpoint drop_stale (prev_cr : bool) (l : list tok) : list tok :=
+  match l with
+  | [] => []
+  | t :: r =>
+      let next_cr := match r with n :: _ => is_cr n | [] => true end in
+      if kind_eqb (tk t) KBlank && negb (prev_cr && next_cr) then drop_stale (is_cr t) r
+      else t :: drop_stale (is_cr t) r
+  end.
 Definition fix_blank_lines (l : list tok) : list tok :=
-  fbl l (option_map tk (nth_error l (length l - 1))) l.
+  let l' := drop_stale true l in
+  fbl l' (option_map tk (nth_error l' (length l' - 1))) l'.
 
 (* utils.fix_trailing_whitespace: at a carriage return whose predecessor *in the input* is whitespace,
    pop the last element of the output *)
